@@ -59,10 +59,7 @@ Proof.
 Qed.
 
 (* ------------------------------------------------------------------ ticks *)
-Section ticks.
-Context {St : Type} (handle : St -> list N -> rx_hres St).
-
-Lemma rx_ticks_tail fuel : forall s buf e,
+Lemma rx_ticks_tail {St : Type} (handle : St -> list N -> rx_hres St) fuel : forall s buf e,
   (length buf < fuel)%nat ->
   match (rx_ticks handle fuel s buf e).2 with
   | TlErr => exists k, TkEv (BTickErr k) [] ∈ (rx_ticks handle fuel s buf e).1
@@ -94,7 +91,7 @@ Proof.
 Qed.
 
 (* the messages the ticks push, and whether a tick dies, come from the argument *)
-Lemma rx_ticks_out fuel : forall s buf e m t,
+Lemma rx_ticks_out {St : Type} (handle : St -> list N -> rx_hres St) fuel : forall s buf e m t,
   t ∈ (rx_ticks handle fuel s buf e).1 -> m ∈ out_of_tick t ->
   m = RmLost true \/ exists s f, match handle s f with HOk _ _ out | HDrop _ _ out => m ∈ out | _ => False end.
 Proof.
@@ -115,7 +112,7 @@ Proof.
     + apply elem_of_nil in Ht. destruct Ht.
 Qed.
 
-Lemma rx_ticks_die fuel : forall s buf e,
+Lemma rx_ticks_die {St : Type} (handle : St -> list N -> rx_hres St) fuel : forall s buf e,
   TkDie ∈ (rx_ticks handle fuel s buf e).1 -> exists s f, handle s f = HPanic.
 Proof.
   induction fuel as [|fuel IH]; intros s buf e Ht; [cbn in Ht; apply elem_of_nil in Ht; destruct Ht|].
@@ -130,7 +127,6 @@ Proof.
   - destruct e; [destruct buf|..]; cbn [fst] in Ht;
       first [apply elem_of_list_singleton in Ht; discriminate|apply elem_of_nil in Ht; destruct Ht].
 Qed.
-End ticks.
 
 (* a frame the parser / FSM refuses is the last thing the session looks at: whatever lies
    behind it in the stream and however the stream ends *)
@@ -247,10 +243,7 @@ Proof.
 Qed.
 
 (* ------------------------------------------------------------------ the theorems *)
-Section run.
-Context {St : Type} (handle : St -> list N -> rx_hres St).
-
-Lemma no_attr_in_sched s0 buf e evs :
+Lemma no_attr_in_sched {St : Type} (handle : St -> list N -> rx_hres St) s0 buf e evs :
   sends_no_attributes handle -> rx_sched (rx_ticks_of handle s0 buf e).1 [] evs -> XAttr ∉ evs.
 Proof.
   intros Hna Hs Hin. apply (rx_sched_elem _ _ _ Hs) in Hin as [(t & _ & Ht)|(m & Hm & Hx)].
@@ -260,7 +253,7 @@ Proof.
     specialize (Hna s f). destruct (handle s f); try contradiction; exact (Hna Hh).
 Qed.
 
-Lemma no_die_in_sched s0 buf e evs :
+Lemma no_die_in_sched {St : Type} (handle : St -> list N -> rx_hres St) s0 buf e evs :
   never_panics handle -> rx_sched (rx_ticks_of handle s0 buf e).1 [] evs -> XDie ∉ evs.
 Proof.
   intros Hnp Hs Hin. apply (rx_sched_elem _ _ _ Hs) in Hin as [(t & Ht & Hx)|(m & _ & Hx)].
@@ -270,18 +263,18 @@ Qed.
 
 (* no panic in rotonda's own code, whatever the octets, the end, the FSM (that sends no
    Message::Attributes), the order of events; old code and repaired code *)
-Theorem rx_no_own_panic fixed s0 id key live0 buf e evs :
+Theorem rx_no_own_panic {St : Type} (handle : St -> list N -> rx_hres St) fixed s0 id key live0 buf e evs :
   sends_no_attributes handle -> rx_sched (rx_ticks_of handle s0 buf e).1 [] evs ->
   rx_run fixed handle s0 id key live0 buf e evs <> RPanicOwn.
 Proof.
   intros Hna Hs. unfold rx_run, rx_finish.
   destruct (rx_loop id key (bs_init live0) evs) as [st r|st| |st] eqn:Hl; try discriminate.
   - destruct ((rx_ticks_of handle s0 buf e).2); try discriminate. destruct fixed; discriminate.
-  - apply rx_loop_panic in Hl. exfalso. exact (no_attr_in_sched _ _ _ _ Hna Hs Hl).
+  - apply rx_loop_panic in Hl. exfalso. exact (no_attr_in_sched handle _ _ _ _ Hna Hs Hl).
 Qed.
 
 (* progress: the events never run out while the session still owes the loop its end *)
-Theorem rx_progress fixed s0 id key live0 buf e evs :
+Theorem rx_progress {St : Type} (handle : St -> list N -> rx_hres St) fixed s0 id key live0 buf e evs :
   rx_sched (rx_ticks_of handle s0 buf e).1 [] evs ->
   rx_run fixed handle s0 id key live0 buf e evs <> RImpossible.
 Proof.
@@ -309,14 +302,14 @@ Qed.
 
 (* the repaired code: a peer that ends the connection (FIN or RST) gets the block after the
    loop, whatever it sent before - unless routecore itself panics *)
-Theorem rx_every_run_ends s0 id key live0 buf e evs :
+Theorem rx_every_run_ends {St : Type} (handle : St -> list N -> rx_hres St) s0 id key live0 buf e evs :
   sends_no_attributes handle -> never_panics handle -> e <> ESilent ->
   rx_sched (rx_ticks_of handle s0 buf e).1 [] evs ->
   rx_run true handle s0 id key live0 buf e evs = REnded (bs_process id key live0 (rx_plain evs)).1.
 Proof.
   intros Hna Hnp He Hs.
-  pose proof (rx_no_own_panic true s0 id key live0 buf e evs Hna Hs) as Hp.
-  pose proof (rx_progress true s0 id key live0 buf e evs Hs) as Hi.
+  pose proof (rx_no_own_panic handle true s0 id key live0 buf e evs Hna Hs) as Hp.
+  pose proof (rx_progress handle true s0 id key live0 buf e evs Hs) as Hi.
   unfold rx_run, rx_finish in *.
   pose proof (rx_loop_state id key evs (bs_init live0)) as Hst.
   rewrite bs_process_unfold. cbn [fst].
@@ -327,19 +320,19 @@ Proof.
     fold (rx_ticks_of handle s0 buf e) in Ht.
     destruct ((rx_ticks_of handle s0 buf e).2); try contradiction; try reflexivity.
   - contradiction.
-  - apply rx_loop_dead in Hl. exfalso. exact (no_die_in_sched _ _ _ _ Hnp Hs Hl).
+  - apply rx_loop_dead in Hl. exfalso. exact (no_die_in_sched handle _ _ _ _ Hnp Hs Hl).
 Qed.
 
 (* a peer that stays connected and silent: the session either ended already or waits for it *)
-Theorem rx_silent_peer s0 id key live0 buf evs :
+Theorem rx_silent_peer {St : Type} (handle : St -> list N -> rx_hres St) s0 id key live0 buf evs :
   sends_no_attributes handle -> never_panics handle ->
   rx_sched (rx_ticks_of handle s0 buf ESilent).1 [] evs ->
   rx_run true handle s0 id key live0 buf ESilent evs = REnded (bs_process id key live0 (rx_plain evs)).1 \/
   rx_run true handle s0 id key live0 buf ESilent evs = RWaiting (bs_loop id key (bs_init live0) (rx_plain evs)).1.
 Proof.
   intros Hna Hnp Hs.
-  pose proof (rx_no_own_panic true s0 id key live0 buf ESilent evs Hna Hs) as Hp.
-  pose proof (rx_progress true s0 id key live0 buf ESilent evs Hs) as Hi.
+  pose proof (rx_no_own_panic handle true s0 id key live0 buf ESilent evs Hna Hs) as Hp.
+  pose proof (rx_progress handle true s0 id key live0 buf ESilent evs Hs) as Hi.
   unfold rx_run, rx_finish in *.
   pose proof (rx_loop_state id key evs (bs_init live0)) as Hst.
   rewrite bs_process_unfold. cbn [fst].
@@ -348,12 +341,12 @@ Proof.
   - destruct Hst as [-> _].
     destruct ((rx_ticks_of handle s0 buf ESilent).2); try contradiction; [left|right]; reflexivity.
   - contradiction.
-  - apply rx_loop_dead in Hl. exfalso. exact (no_die_in_sched _ _ _ _ Hnp Hs Hl).
+  - apply rx_loop_dead in Hl. exfalso. exact (no_die_in_sched handle _ _ _ _ Hnp Hs Hl).
 Qed.
 
 (* the code before the repair: it differs only where the FSM let go of the connection without
    a word and the loop had handled everything that was queued - there it waits for ever *)
-Theorem rx_old_code_partial s0 id key live0 buf e evs :
+Theorem rx_old_code_partial {St : Type} (handle : St -> list N -> rx_hres St) s0 id key live0 buf e evs :
   match rx_run false handle s0 id key live0 buf e evs with
   | RWedged st => (rx_ticks_of handle s0 buf e).2 = TlDropped /\
                   rx_run true handle s0 id key live0 buf e evs = REnded (bs_cleanup id key st)
@@ -364,7 +357,6 @@ Proof.
   destruct (rx_loop id key (bs_init live0) evs) as [st r|st| |st]; try reflexivity.
   destruct ((rx_ticks_of handle s0 buf e).2); try reflexivity. split; reflexivity.
 Qed.
-End run.
 
 (* what the end looks like (BgpSessionProofs.cleanup_shape through rx_every_run_ends) *)
 Theorem rx_ends_in_cleanup {St} (handle : St -> list N -> rx_hres St) s0 id key live0 buf e evs :
